@@ -10,7 +10,7 @@ CHECKS = {
         "model_checking",
         "Bounded exhaustive exploration of the real Evaluate impls: every function message of a closed representation alphabet "
         "(all four variants + unset oneof, unsorted/repeated terms, all (row,col) positions, explicit zeros, absent/zero linear part, "
-        "degree <= 4, up to 3 terms (thorough: 4-term linear, 3-entry quadratic over all values, more 3-term polynomials), ID extremes 0 and u64::MAX; long functions of every variant with 31..100 terms, distinct and repeating ids) x every state of a value grid (including states lacking exactly one occurring ID), "
+        "degree <= 4, up to 3 terms (thorough: 4-term linear, 3-entry quadratic over all values, more 3-term polynomials), ID extremes 0 and u64::MAX; long functions of every variant with 31..100 terms, distinct and repeating ids) x every state of a value grid (including states lacking exactly one occurring ID), through evaluate AND evaluate_samples of the Function and of the concrete type, "
         "compared bit-exactly with an independent exact-rational evaluator; a non-dyadic sub-alphabet is compared within a rigorous "
         "gamma_n rounding bound. Defects in term-wise accumulation are local, so the small scope contains every shape the code distinguishes.",
         "Trusted: num::BigRational, the harness's message readers (public fields only). Alphabet bounds are stated in the evidence; nothing outside them is claimed.",
@@ -36,7 +36,7 @@ CHECKS = {
     "C04": (
         "model_checking",
         "(1) Function::substitute on a function family x all 8^4 replacement maps over four keys (constant, linear, linear mentioning another replaced id, quadratic, zero, identity, an unnormalised linear listing an id twice, absent) vs exact simultaneous composition; long functions (31..100 terms) under four replacement maps. "
-        "(2) Instance::substitute on an instance family (variable lists in and out of id order; replaced variables unbounded, or bounded so that the replacement values fall outside) x first map x optional second map (chains) x states, under every iteration order of the dependency map (hook H1): every function compared as polynomial, dependency map compared, Solution compared with the original instance evaluated at the completed state; log_encode->substitute->evaluate on all bit patterns. "
+        "(2) Instance::substitute on an instance family (variable lists in and out of id order; replaced variables unbounded, or bounded so that the replacement values fall outside) x first map x optional second map (chains) x states, under every iteration order of the dependency map (hook H1): every function compared as polynomial, dependency map compared, Solution compared with the original instance evaluated at the completed state, evaluate_samples over two states compared with evaluate; log_encode->substitute->evaluate on all bit patterns. "
         "(3) Explicit enumeration of ALL dependency graphs on n<=3 (quick) / n<=4 (thorough, 16.7M graphs) dependents, each summing any subset of {dependents incl. itself, a valued variable, a value-less variable}, x all n! iteration orders, through the real Instance::evaluate; oracle = Kahn topological evaluation: exact values when acyclic and grounded, Err otherwise; a watchdog turns a hang into a violation.",
         "Trusted: Poly.subst, Kahn oracle, hook H1 (sorts the bucket by key and applies the harness permutation; identity when unset). Instance-level replacements mention only remaining variables, as the property states.",
         "exhaustive enumeration of dependency graphs x iteration orders (schedules) and of replacement maps on the real code vs reference composition",
@@ -62,7 +62,7 @@ CHECKS = {
     ),
     "C10": (
         "model_checking",
-        "Parametric instances whose objective and constraints range over the full representation alphabet (decision ids {1,2}, parameter ids {10,11}; declared sets {10,11} and {10,11,12} so a declared parameter may be unused or occur only in a removed constraint; parameter 11 carries no name or other metadata, parameter 10 all of it) x parameter assignments {complete, complete+unrelated extra, with a zero value, each single declared parameter missing, empty, unrelated id only} through with_parameters. Oracle: exact partial evaluation of objective and active constraints; decision variables, sense, removed constraints, hints, dependencies unchanged; supplied values recorded; Err iff a declared parameter is missing; evaluate(x) == parametric functions at (x,p). Instance->ParametricInstance->with_parameters({}) round trip compared as problems.",
+        "Parametric instances whose objective and constraints range over the full representation alphabet (decision ids {1,2}, parameter ids {10,11}; declared sets {10,11} and {10,11,12} so a declared parameter may be unused or occur only in a removed constraint; parameter 11 carries no name or other metadata, parameter 10 all of it) x parameter assignments {complete, complete+unrelated extra, with a zero value, each single declared parameter missing, empty, unrelated id only} through with_parameters. Oracle: exact partial evaluation of objective and active constraints; decision variables, sense, removed constraints, hints, dependencies unchanged; supplied values recorded; Err iff a declared parameter is missing; evaluate(x) == parametric functions at (x,p). Instance->ParametricInstance->with_parameters({}) round trip compared as problems (also for instances that record the parameters of an earlier instantiation).",
         "Trusted: Poly.partial. Previous `parameters` of an Instance are dropped by the conversion by documented design and are not compared.",
         "bounded exhaustive enumeration of (parametric instance, assignment) on the real code vs exact partial evaluation",
     ),
@@ -80,13 +80,13 @@ CHECKS = {
     ),
     "C13": (
         "model_checking",
-        "Every inequality f(x)<=0 with f = up to 2 (quick) / 3 (thorough) distinct monomials of degree<=2 + constant, coefficients {+-1,+-2,3,+-1/2,1/3,-2/3,3/4}, constants {-3,-1,-1/2,0,1/2,2}, over 1..3 integer/binary variables, every assignment of 5 boxes to the variables, Linear/Quadratic/Polynomial and unnormalised representations (a term listed twice in both id orders; the constant split over two degree-0 monomials), other constraints present in two list layouts (one in descending id order), a second conversion in the same instance on a sub-grid, two variable-list layouts; convert_inequality_to_equality_with_integer_slack x max_integer_range {1,3,100} and add_integer_slack_to_inequality x slack_upper_bound {1,2,5}. Oracle: brute force over EVERY lattice point of the box and EVERY slack value in the new variable's bounds: feasible set in x unchanged; slack integer, fresh id, bound [0,S], same constraint id, b reported = slack coefficient; moved-to-removed => constraint unchanged and satisfied everywhere; InfeasibleDetected => no clearly feasible lattice point; for linear f the determined outcomes are asserted in the converse direction too; rejections (unknown constraint id, a variable of f left undefined, equality field = 0 / unspecified / outside the enumeration, continuous or semi-continuous variable, range above limit) leave the instance unchanged.",
+        "Every inequality f(x)<=0 with f = up to 2 (quick) / 3 (thorough) distinct monomials of degree<=2 + constant, coefficients {+-1,+-2,3,+-1/2,1/3,-2/3,3/4}, constants {-3,-1,-1/2,0,1/2,2}, over 1..3 integer/binary variables, every assignment of 5 boxes to the variables, Linear/Quadratic/Polynomial and unnormalised representations (a term listed twice in both id orders; the constant split over two degree-0 monomials), other constraints present in two list layouts (one in descending id order), a second conversion in the same instance on a sub-grid, two variable-list layouts; convert_inequality_to_equality_with_integer_slack x max_integer_range {1,3,100} and add_integer_slack_to_inequality x slack_upper_bound {1,2,5}. Oracle: brute force over EVERY lattice point of the box and EVERY slack value in the new variable's bounds: feasible set in x unchanged; slack integer, fresh id, bound [0,S], same constraint id, b reported = slack coefficient; moved-to-removed => constraint unchanged and satisfied everywhere; InfeasibleDetected => no clearly feasible lattice point; for linear f the determined outcomes are asserted in the converse direction too; rejections (unknown constraint id, a variable of f left undefined, equality field = 0 / unspecified / outside the enumeration, continuous and semi-continuous variable with both methods, range above limit) leave the instance unchanged.",
         "Feasibility at lattice points uses the 1e-6 rule on values that are multiples of 1/12 (far from the tolerance). add_integer_slack's exact-zero threshold with non-dyadic coefficients is not asserted at the boundary, nor is b == slack coefficient when b is rounding noise (<= 1e-12) of a non-dyadic unnormalised message (both counted as boundary_cases_not_asserted). slack_upper_bound=0 and unbounded variables are outside the alphabet.",
         "bounded exhaustive enumeration of inequalities x boxes with brute-force lattice/slack oracle on the real code",
     ),
     "C14": (
         "model_checking",
-        "Explicit-state breadth-first search with stateright over the real Instance: from each of 14 initial instances (3 constraint-function sets with 3-4 constraints, 0/1/2/all initially removed, two more in which a variable that a constraint mentions carries a fixed value; thorough adds a 5-constraint set: 2.0e5 states, 5.9e6 transitions) every action relax(id, reason in {a, empty string}, params in {none,{k:v}}) / relax(id, a reason with leading and trailing whitespace) / restore(id) for every constraint id and the unknown id 99. The instance message is the whole state (dedup key = message bytes + reference model), so every history of any length is covered, not only length <= 8. Every transition is compared with a two-set reference model (op on an id not in the expected list must fail and leave the instance equal to its clone); every reachable state is checked: multiset of (id, function, equality, metadata) over active+removed unchanged, ids partitioned, recorded reasons/parameters, and on all 27 grid states per-constraint values and feasible equal the initial instance's while feasible_relaxed follows the currently active constraints; three incomplete states (each variable omitted) are accepted or rejected exactly as by the initial instance.",
+        "Explicit-state breadth-first search with stateright over the real Instance: from each of 14 initial instances (3 constraint-function sets with 3-4 constraints, 0/1/2/all initially removed, two more in which a variable that a constraint mentions carries a fixed value; thorough adds a 5-constraint set: 2.0e5 states, 5.9e6 transitions) every action relax(id, reason in {a, empty string}, params in {none,{k:v}}) / relax(id, a reason with leading and trailing whitespace) / restore(id) for every constraint id and the unknown id 99. The instance message is the whole state (dedup key = message bytes + reference model), so every history of any length is covered, not only length <= 8. Every transition is compared with a two-set reference model (op on an id not in the expected list must fail and leave the instance equal to its clone); every reachable state is checked: multiset of (id, function, equality, metadata) over active+removed unchanged, ids partitioned, recorded reasons/parameters, and on all 27 grid states per-constraint values and feasible equal the initial instance's while feasible_relaxed follows the currently active constraints; three incomplete states (each variable omitted) are accepted or rejected exactly as by the initial instance; evaluate_samples over all grid states reports the same two flags per sample.",
         "stateright 0.31 BFS; violations are collected through a side channel so exploration continues and every signature is reported; replay re-executes the recorded history without the explorer.",
         "explicit-state model checking (stateright BFS) of the real code with a reference model in lock-step",
     ),
@@ -104,25 +104,25 @@ CHECKS = {
     ),
     "C08": (
         "fault_enumeration",
-        "Every single fault at every position of each valid base instance (5 bases covering every kind, bounds present/absent, every function variant, active+removed constraints, one-hot and SOS1 hints (out of constraint-id order, two hints on one constraint), dependencies, parameters, description): set id_j := id_i for every ordered pair of variables and of constraints across active+removed; replace each id occurrence of each function (objective, constraints, removed constraints, dependencies) by an undefined id; unset each oneof; unset sense / objective / each constraint function / equality / kind / removed inner constraint; each of 5 invalid bound shapes on each variable; undefined / repeated ids at every position of the hints; undefined dependency key; neutral mutations - and EVERY ORDERED PAIR of those faults. Oracle: a reference validator that re-derives the set of violated rules from the mutated message: validate() must reject exactly when ids are duplicated or used ids undefined; TryFrom<v1::Instance> must accept exactly when no rule is violated and its error (RawParseError variant + outermost context field) must name a violated rule; accepted messages are compared field by field with the typed view (hook H2: ids, kinds, bounds with unset = unbounded / [0,1], constraints, removed constraints, dependencies, hints, parameters, description). The C03 instance family is the accepting-side corpus. ParametricInstance::validate with its own single/pair fault list, incl. three faults that break only the joint uniqueness of variable and parameter ids.",
+        "Every single fault at every position of each valid base instance (6 bases covering every kind, bounds present/absent, every function variant, active+removed constraints, one-hot and SOS1 hints (out of constraint-id order, two hints on one constraint), dependencies, parameters, description): set id_j := id_i for every ordered pair of variables and of constraints across active+removed; replace each id occurrence of each function (objective, constraints, removed constraints, dependencies) by an undefined id; unset each oneof; unset sense / objective / each constraint function / equality / kind / removed inner constraint; each of 5 invalid bound shapes on each variable; undefined / repeated ids at every position of the hints; undefined dependency key; neutral mutations - and EVERY ORDERED PAIR of those faults. Oracle: a reference validator that re-derives the set of violated rules from the mutated message: validate() must reject exactly when ids are duplicated or used ids undefined; TryFrom<v1::Instance> must accept exactly when no rule is violated and its error (RawParseError variant + outermost context field) must name a violated rule; accepted messages are compared field by field with the typed view (hook H2: ids, kinds, bounds with unset = unbounded / [0,1], constraints, removed constraints, dependencies, hints, parameters, description). The C03 instance family is the accepting-side corpus. ParametricInstance::validate with its own single/pair fault list, incl. three faults that break only the joint uniqueness of variable and parameter ids.",
         "Trusted: the reference validator (props/c08.rs) as the statement of the rules; hook H2 only returns references to the private fields. Hints naming a removed constraint are outside the alphabet.",
         "exhaustive single and pairwise fault injection on the real validators vs reference validator",
     ),
     "C17": (
         "model_checking",
-        "Abstract LP/MIP models rendered by the harness's own free-format MPS writer and loaded by the real readers (load_raw_reader, load_zipped_reader, load_file): the FULL PRODUCT of 27 row specs (E/L/G x range none/+2/-2 x rhs none/4/-3) x 50 column specs (integer marker x 25 bound specs: none, UP, negative UP, LO, LO+UP in both orders, LO+negative UP in both orders, FX, MI, PL, FR, BV, LI, UI, MI+UP, MI+negative UP, LI+UI, LO 0+UP 1, UP 1e30, FX 1, LO 1+UP 1, LO -1+UP 1, UP 1, FX 0) for one row x one column under every layout (3/5-field lines, comment and blank lines incl. between OBJSENSE and its value line, wide separators) x 5 sense forms x 5 name styles (foreign / OMMX_-style / mixed for columns and rows, three objective row names) x objective constant x sparsity patterns; the full product of row and column specs for two rows x two columns; a fixed 5x6 model under all layouts; no-row models. The expected instance is computed from the abstract model (never by parsing) and compared by name: objective coefficients and constant (-RHS of the file's objective row), sense, one or two constraints per row by the RANGES table, effective domain per column (binary kind only for BV columns or integral columns with bounds exactly [0,1]), names / recovered ids. Fault files: undeclared row in COLUMNS / RANGES, unknown row / bound type, bad marker keyword, bad OBJSENSE word, unparsable numbers in every section, at every applicable line of a base file => Err, never a panic.",
+        "Abstract LP/MIP models rendered by the harness's own free-format MPS writer and loaded by the real readers (load_raw_reader, load_zipped_reader, load_file on *.mps.gz and *.mps, load_file_bytes + decode): the FULL PRODUCT of 27 row specs (E/L/G x range none/+2/-2 x rhs none/4/-3) x 50 column specs (integer marker x 25 bound specs: none, UP, negative UP, LO, LO+UP in both orders, LO+negative UP in both orders, FX, MI, PL, FR, BV, LI, UI, MI+UP, MI+negative UP, LI+UI, LO 0+UP 1, UP 1e30, FX 1, LO 1+UP 1, LO -1+UP 1, UP 1, FX 0) for one row x one column under every layout (3/5-field lines, comment and blank lines incl. between OBJSENSE and its value line, wide separators) x 5 sense forms x 5 name styles (foreign / OMMX_-style / mixed for columns and rows, three objective row names) x objective constant x sparsity patterns; the full product of row and column specs for two rows x two columns; a fixed 5x6 model under all layouts; no-row models. The expected instance is computed from the abstract model (never by parsing) and compared by name: objective coefficients and constant (-RHS of the file's objective row), sense, one or two constraints per row by the RANGES table, effective domain per column (binary kind only for BV columns or integral columns with bounds exactly [0,1]), names / recovered ids. Fault files: undeclared row in COLUMNS / RANGES, unknown row / bound type, bad marker keyword, bad OBJSENSE word, unparsable numbers in every section, at every applicable line of a base file => Err, never a panic.",
         "Residual un-owned nondeterminism: HashSet/HashMap order inside the parser (cannot change a correct result as compared). Outside the alphabet: UP 0 without LO, RANGES 0, second N row, RHS on an undeclared row.",
         "bounded exhaustive enumeration of abstract models x layouts rendered by an independent writer, loaded by the real parser; fault enumeration for the error alphabet",
     ),
     "C18": (
         "model_checking",
-        "Every linear instance of the product: 1..2 (quick) / 1..3 (thorough) used variables with ids {4,9,1} in rotated list order plus an unused variable with the largest id, each over 30 kind x bound specs (incl. endpoints exactly 0, degenerate and huge finite bounds) (continuous/integer x {absent,[0,1],[-3,5],[2,inf),(-inf,4],(-inf,inf),[-5,-1],[0,0],[0,inf),[-3,0],(-inf,0],[1,1]}, binary x {absent,[0,1],[0,0],[1,1]}) x objective forms x constraint lists (0..2, = / <=, constant-only included, ids {40,3}) with function variants rotating over every message type able to hold a linear function incl. unnormalised ones (a term listed twice, unsorted), names on some variables / constraints, both senses; written with mps::write_file and read back with mps::load_file in a private scratch directory. Oracle: same sense, objective and every constraint equal as polynomials under the same variable and constraint ids with the same equality, same effective value domain (integrality + bounds, unset = unbounded, binary = integer in [0,1]) for every mathematically used variable. Nonlinear objective / constraint (4 shapes, each position) must be refused with the error variant naming the offender.",
+        "Every linear instance of the product: 1..2 (quick) / 1..3 (thorough) used variables with ids {4,9,1} in rotated list order plus an unused variable with the largest id, each over 30 kind x bound specs (incl. endpoints exactly 0, degenerate and huge finite bounds) (continuous/integer x {absent,[0,1],[-3,5],[2,inf),(-inf,4],(-inf,inf),[-5,-1],[0,0],[0,inf),[-3,0],(-inf,0],[1,1]}, binary x {absent,[0,1],[0,0],[1,1]}) x objective forms x constraint lists (0..2, = / <=, constant-only included, ids {40,3}) with function variants rotating over every message type able to hold a linear function incl. unnormalised ones (a term listed twice, unsorted), names on some variables / constraints, both senses; written with mps::write_file and read back with mps::load_file in a private scratch directory (file called *.mps.gz or *.mps). Oracle: same sense, objective and every constraint equal as polynomials under the same variable and constraint ids with the same equality, same effective value domain (integrality + bounds, unset = unbounded, binary = integer in [0,1]) for every mathematically used variable. Nonlinear objective / constraint (4 shapes, each position) must be refused with the error variant naming the offender.",
         "Unnormalised (repeated-id) linear terms are outside the alphabet; variables not mathematically used are not compared (the property restricts to used variables).",
         "bounded exhaustive enumeration of linear instances through the real writer+reader round trip",
     ),
     "C19": (
         "model_checking",
-        "Abstract QP models for EACH of the 120 problem-type codes (objective L/D/C/Q x variables C/B/M/I/G x constraints N/B/L/D/C/Q) x sizes up to n=5, m=4 (incl. m=0 under every constraint kind) x a deterministic sweep (210 quick / 840 thorough per code and size) that visits every value of every content dimension: Q0 diagonal / off-diagonal patterns, default b0 with non-defaults incl. an explicit zero, q0, per-constraint Qi / bi (constraints without linear entries: none / the last / the first / all), constraint sides finite / exactly at the infinity value / beyond it / equal, variable bounds likewise, variable types, names, infinity value 1e20 or 50, sense; 5 layouts (comment lines with ! # %, blank lines, trailing text after values, lower-case keywords, sparse sections in ascending or descending index order). Rendered by the harness's own QPLIB writer, loaded with qplib::load_file. Expected problem from the model: objective 1/2 x'Q0x + b0'x + q0 assembled from the lower triangle (diagonal entry v -> v/2 x_i^2), one <=0 constraint per finite side with the right signs, unique constraint ids, variable kinds/bounds/names. Fault files on 6 representative codes x 2 layouts: each type-code character invalid, too short, invalid sense, every count non-numeric / negative / fractional, every number and entry value / index unparsable, and truncation after EVERY line => Err whose message carries the line number of the fault.",
+        "Abstract QP models for EACH of the 120 problem-type codes (objective L/D/C/Q x variables C/B/M/I/G x constraints N/B/L/D/C/Q) x sizes up to n=5, m=4 (incl. m=0 under every constraint kind) x a deterministic sweep (210 quick / 840 thorough per code and size) that visits every value of every content dimension: Q0 diagonal / off-diagonal patterns, default b0 with non-defaults incl. an explicit zero, q0, per-constraint Qi / bi (constraints without linear entries: none / the last / the first / all), constraint sides finite / exactly at the infinity value / beyond it / equal, variable bounds likewise, variable types, names, infinity value 1e20 or 50, sense; 5 layouts (comment lines with ! # %, blank lines, trailing text after values, lower-case keywords, sparse sections in ascending or descending index order). Rendered by the harness's own QPLIB writer, loaded with qplib::load_file or qplib::load_file_bytes + decode. Expected problem from the model: objective 1/2 x'Q0x + b0'x + q0 assembled from the lower triangle (diagonal entry v -> v/2 x_i^2), one <=0 constraint per finite side with the right signs, unique constraint ids, variable kinds/bounds/names. Fault files on 6 representative codes x 2 layouts: each type-code character invalid, too short, invalid sense, every count non-numeric / negative / fractional, every number and entry value / index unparsable, and truncation after EVERY line => Err whose message carries the line number of the fault.",
         "Format assumption: the two trailing name sections are always written. Outside the alphabet: out-of-range indices, upper-triangle or repeated entries.",
         "bounded exhaustive enumeration of type codes x content sweep rendered by an independent writer; fault enumeration incl. every truncation point",
     ),
@@ -134,7 +134,7 @@ CHECKS = {
     ),
     "C07": (
         "model_checking",
-        "The model is the schema itself, parsed from proto/ommx/v1/*.proto by the harness's own parser (31 messages, 121 fields, 5 enums). (1) Binding the model to the implementations, exhaustively over every message / field / enum value: the prost attributes of rust/ommx/src/ommx.v1.rs (struct <-> message, field name, tag, type, optional/repeated/map/oneof, enum discriminants and as_str_name tables), the serialized FileDescriptorProto embedded in each python/ommx/ommx/v1/*_pb2.py (extracted with ast, decoded with the harness's own wire decoder) and the field lists of the .pyi stubs must all equal the model. (2) Every model state of every message type is replayed on the real prost code: every subset of field slots (all subsets for <= 8 slots, size <= 3 otherwise) x every alternative value per slot (repeated with 1-2 elements, maps with 1-2 entries, each oneof arm, nested messages populated one level deep and present-but-empty, every declared enum value and an undeclared one, explicit-presence defaults), encoded by the harness's own schema-driven encoder in 5 encodings (packed / unpacked repeated scalars, reversed field order, appended unknown fields of every wire type) -> M::decode must succeed -> the set of Rust fields that changed (read from the Debug rendering, which names every Rust field) must be exactly the fields sent and enum values must render as the schema's names -> encode_to_vec -> the harness's own decoder must recover the content with schema-conforming wire types -> decode(encode(m)) == m. (3) data/random_lp_instance.ommx, written by an earlier release, must open, decode, validate and re-encode to an equal message; archives written by another conforming implementation (ocipkg + the published media types / annotation keys as literals) must be readable through the typed getters and positional listings, as one- and two-layer archives (every ordered pair of kind x empty / non-trivial message).",
+        "The model is the schema itself, parsed from proto/ommx/v1/*.proto by the harness's own parser (31 messages, 121 fields, 5 enums). (1) Binding the model to the implementations, exhaustively over every message / field / enum value: the prost attributes of rust/ommx/src/ommx.v1.rs (struct <-> message, field name, tag, type, optional/repeated/map/oneof, enum discriminants and as_str_name tables), the serialized FileDescriptorProto embedded in each python/ommx/ommx/v1/*_pb2.py (extracted with ast, decoded with the harness's own wire decoder) and the field lists of the .pyi stubs must all equal the model. (2) Every model state of every message type is replayed on the real prost code: every subset of field slots (all subsets for <= 8 slots, size <= 3 otherwise) x every alternative value per slot (repeated with 1-2 elements, maps with 1-2 entries, each oneof arm, nested messages populated one level deep and present-but-empty, every declared enum value and an undeclared one, explicit-presence defaults), encoded by the harness's own schema-driven encoder in 5 encodings (packed / unpacked repeated scalars, reversed field order, appended unknown fields of every wire type) -> M::decode must succeed -> the set of Rust fields that changed (read from the Debug rendering, which names every Rust field) must be exactly the fields sent and enum values must render as the schema's names -> encode_to_vec -> the harness's own decoder must recover the content with schema-conforming wire types -> decode(encode(m)) == m. (3) the byte-returning loaders mps::load_file_bytes / qplib::load_file_bytes must return bytes that decode to the loaded instance; data/random_lp_instance.ommx, written by an earlier release, must open, decode, validate and re-encode to an equal message; archives written by another conforming implementation (ocipkg + the published media types / annotation keys as literals) must be readable through the typed getters and positional listings, as one- and two-layer archives (every ordered pair of kind x empty / non-trivial message).",
         "No Python protobuf runtime is installed: the Python classes are not executed; their embedded descriptors are compared statically. Trusted base of the static step (prost's derive honours its attributes) is exactly what the dynamic step checks. python3 (stdlib only) is used for the three schema scrapers.",
         "explicit enumeration of schema states replayed on the real codec through an independent codec, plus exhaustive static binding of the schema model to the generated bindings",
     ),
